@@ -14,6 +14,9 @@ NEEDS = {
  'C10-a': ("next_to_run inspects only the head of the schedule", "small pool with all threads momentarily occupied, a stale schedule entry (sync stole a Pending queue) at the head, another object's queue behind it, then a pool thread becoming free"),
  'C15-a': ("ActiveQueue guard marks the queue Panicked only if its state is exactly Running (forgets AwokenWhileRunning)", "a wake of one of the queue's wakers arriving while a job of that queue is executing, and a panic in that job (or a later job of the same drain batch) before any job returns Pending"),
  'C17-a': ("spawn_thread_if_less_than_maximum: length checked under the threads lock, thread created and pushed after re-taking it", "pool below its maximum and two scheduling calls racing through 'no dormant thread, spawn one' within the duration of a thread spawn"),
+ 'C11-a': ("pipe_in: end of the input stream reports 'keep polling' (Ready(None) merged with Pending), so the poll function is never cleared", "an input stream that still holds the waker of its last poll when it ends (register-first streams, e.g. AtomicWaker users): the cycle stream -> waker -> context -> poll function -> stream is never broken"),
+ 'C13-a': ("next_to_run no longer takes over a queue in WaitingForPoll", "the suspension reached through the poll of a later future of the same queue (queue parked in WaitingForPoll), that future then dropped/detached/not polled again, and the resumer used or dropped afterwards"),
+ 'C16-a': ("pipe(): the poll function holds a strong reference to the output stream's core instead of a weak one", "the producer throttled by back-pressure (its only waker parked in the core) when the output stream is dropped, input silent afterwards: the cycle core -> waker -> context -> poll function -> core keeps input stream and closure alive"),
  'C12-a': ("pipe(): buffer-full check and back-pressure registration in two separate critical sections", "back-pressure reached and a consumer pop landing exactly between the producer's 'buffer full' check and its registration, with no later repairing poll by the consumer"),
 }
 for id in sorted(os.listdir('/verif/seeded')):
